@@ -26,6 +26,7 @@ from xknx.exceptions import ConversionError
 # The Frame Type and Address Type bits are not listed here - `CEMIFrameType` and
 # `CEMIAddressType` place their own bit.
 # Ctrl1
+RESERVED = 0b01000000_00000000
 DO_NOT_REPEAT = 0b00100000_00000000
 BROADCAST = 0b00010000_00000000
 PRIORITY_MASK = 0b00001100_00000000
@@ -137,6 +138,8 @@ class CEMIFlags:
     # as received; not used when serializing
     frame_type: CEMIFrameType = CEMIFrameType.STANDARD
     frame_format: CEMIFrameFormat = CEMIFrameFormat.STANDARD
+    # reserved bit of the first control field (shall be 0) - kept as received
+    reserved: bool = False
 
     def to_knx(self) -> int:
         """
@@ -157,6 +160,7 @@ class CEMIFlags:
             | (self.priority << PRIORITY_OFFSET)
             | (ACK_REQUESTED if self.acknowledge_request else 0)
             | (CONFIRM_ERROR if self.confirm_error else 0)
+            | (RESERVED if self.reserved else 0)
             | (self.hop_count << HOP_COUNT_OFFSET)
             | self.frame_format
         )
@@ -187,6 +191,7 @@ class CEMIFlags:
             hop_count=(raw & HOP_COUNT_MASK) >> HOP_COUNT_OFFSET,
             frame_type=CEMIFrameType.from_knx(raw),
             frame_format=frame_format,
+            reserved=bool(raw & RESERVED),
         )
 
     def __str__(self) -> str:
